@@ -5,6 +5,7 @@ against vmon.refspec, plus behavioural confirmation: raising each class is
 caught by its specification base and by the common base; the constants are
 the ones the codec actually puts on the wire."""
 from .. import canon, refcodec, refspec
+from ..mon import sysmon
 from . import common
 from .common import call
 
@@ -148,6 +149,27 @@ def _perturb(rec):
     common.lib_unmarshal(b'AMQP')
     list(exceptions.CLASS_MAPPING.items())
     dict(vars(constants))
+    # whatever public module-level helpers these two modules offer (today:
+    # none; tomorrow perhaps a lookup by reply code): called the way a client
+    # would, with known, unknown and success reply codes
+    import inspect
+    called = 0
+    for mod in (exceptions, constants):
+        for name, fn in sorted(vars(mod).items()):
+            if name.startswith('_') or not inspect.isfunction(fn) or \
+                    getattr(fn, '__module__', None) != mod.__name__:
+                continue
+            for args in ((), (404,), (599,), (200,), (0,), (320, 'text'),
+                         (599, 'vendor'), (599, 'vendor', True),
+                         (404, 'NOT_FOUND', False), ('404',), (None,),
+                         (311, 'x', 60, 40)):
+                try:
+                    with sysmon.budget(200000, 200000):
+                        fn(*args)
+                except BaseException:
+                    pass
+                called += 1
+    rec.count('public_helper_calls', called)
     rec.count('client_subclasses_defined', len(made))
     rec._keep = made
 
@@ -158,7 +180,7 @@ def _walk(rec, when):
     global _WHEN
     _WHEN = ' (' + when + ')'
     cm = exceptions.CLASS_MAPPING
-    _fact(rec, 'CLASS_MAPPING key set', sorted(cm),
+    _fact(rec, 'CLASS_MAPPING key set', sorted(cm, key=repr),
           sorted(refspec.REPLY_CODES), 'reply-code-set')
     classes = []
     for code, (name, hard) in sorted(refspec.REPLY_CODES.items()):
